@@ -3,12 +3,16 @@ package c17
 import (
 	"bytes"
 	"context"
+	"errors"
 	"fmt"
+	"hash/crc32"
+	"io"
 	"math/rand"
 	"os"
 	"path"
 	"sort"
 	"strings"
+	"sync"
 	"testing"
 	"time"
 
@@ -43,6 +47,10 @@ type params struct {
 	Via      string     `json:"via"` // upload | mutable-commit (entry names then carry a leading slash)
 	Ops      int        `json:"ops"`
 	Seed     int64      `json:"seed"`
+	// BodyFaults: the first transfer of every leaf blob is cut mid-body with this error text (streamed mounts; hash
+	// verification off, which is the mount's default, or on). "" = no faults.
+	BodyFault string `json:"body_fault,omitempty"`
+	NoVerify  bool   `json:"hash_verification_off,omitempty"`
 }
 
 var parts = []string{"a", "b", "data", "file with space", "ünï-cødé", "x.y.z", ".dot", "UPPER", "日本", "a-b", "a_b", "0", "long-name-to-make-the-dirent-longer-than-usual"}
@@ -134,9 +142,18 @@ func gen17(seed int64, tier string) []drv.Case {
 				p.Ops = 60000
 			}
 		}
+		if i%6 == 4 && nf > 0 {
+			p.Streamed, p.Via = true, "upload"
+			p.Cache = []int{leaf, 50 << 20}[r.Intn(2)]
+			p.BodyFault = []string{"unexpected EOF", "connection reset by peer", "stream error: stream ID 7; INTERNAL_ERROR; received from peer"}[r.Intn(3)]
+			p.NoVerify = r.Intn(3) > 0
+		}
 		cls := "streamed"
 		if !p.Streamed {
 			cls = "pre-downloaded"
+		}
+		if p.BodyFault != "" {
+			cls += "+transfer-faults"
 		}
 		if p.Via != "upload" {
 			cls += "+committed-from-mutable-mount"
@@ -224,8 +241,34 @@ func run17(c drv.Case, res *drv.Result) {
 
 	dest := scratch + "/mount-staging"
 	must(os.MkdirAll(dest, 0o755))
-	b := env.ReadBundle(nil, "r", id, coreh.LocalFS(dest), 4)
-	opts := []dfuse.Option{dfuse.Logger(coreh.Nop), dfuse.Streaming(p.Streamed), dfuse.VerifyHash(true)}
+	var mountActor *memstore.Actor
+	faulted := map[string]bool{}
+	var fmu sync.Mutex
+	faultsLeft := func() bool { return false }
+	if p.BodyFault != "" {
+		mountActor = memstore.NewActor("mount")
+		ferr := errors.New(p.BodyFault)
+		if p.BodyFault == "unexpected EOF" {
+			ferr = io.ErrUnexpectedEOF
+		}
+		nblobs := len(env.Blob.RawKeys())
+		mountActor.SetReadFault(func(c memstore.Call, size int) (int, error) {
+			if c.Store != "blob" || size < 2 {
+				return 0, nil
+			}
+			fmu.Lock()
+			defer fmu.Unlock()
+			if faulted[c.Key] {
+				return 0, nil
+			}
+			faulted[c.Key] = true
+			return 1 + int(crc32.ChecksumIEEE([]byte(c.Key)))%(size-1), ferr
+		})
+		faultsLeft = func() bool { fmu.Lock(); defer fmu.Unlock(); return len(faulted) < nblobs }
+		_ = faultsLeft
+	}
+	b := env.ReadBundle(mountActor, "r", id, coreh.LocalFS(dest), 4)
+	opts := []dfuse.Option{dfuse.Logger(coreh.Nop), dfuse.Streaming(p.Streamed), dfuse.VerifyHash(!p.NoVerify)}
 	if p.Streamed {
 		opts = append(opts, dfuse.CacheSize(p.Cache), dfuse.Prefetch(p.Prefetch))
 	}
@@ -465,6 +508,10 @@ func run17(c drv.Case, res *drv.Result) {
 		case off+n > size:
 			kind = "crossing-eof"
 		}
+		if err != nil && p.BodyFault != "" && mountActor.FaultsInjected() > 0 {
+			res.Stat("reads_refused_under_transfer_fault", 1) // an error is a correct answer to a cut transfer
+			continue
+		}
 		if err != nil {
 			res.Violate("read-failed", cls(p)+"|"+kind, "ReadFile(%q [%d bytes], off=%d, len=%d) failed: %v (%d bytes)", "/"+f.pth, size, off, n, err, len(got))
 			return
@@ -474,6 +521,28 @@ func run17(c drv.Case, res *drv.Result) {
 			return
 		}
 		res.Seen("read_kinds", kind)
+	}
+	if p.BodyFault != "" {
+		// the faults are transient (one per blob): read everything twice; the first pass may fail, never lie; once no
+		// transfer is cut any more every read must be exact
+		mountActor.SetReadFault(nil)
+		for pass := 0; pass < 2; pass++ {
+			for _, f := range files {
+				got, err := fs.ReadFile(f.n.inode, 0, len(f.n.content)+1)
+				if err != nil && pass == 0 {
+					continue
+				}
+				if err != nil {
+					res.Violate("read-failed", cls(p)+"|after-transfer-faults-ended", "ReadFile(%q) still fails after the transfer faults ended: %v", "/"+f.pth, err)
+					return
+				}
+				if !bytes.Equal(got, f.n.content) {
+					res.Violate("read-wrong-bytes", cls(p)+"|after-transfer-fault|verify="+fmt.Sprint(!p.NoVerify), "ReadFile(%q [%d bytes]) returns %d bytes that differ from the file (first difference at %d) after an earlier transfer of one of its blobs was cut (%s)", "/"+f.pth, len(f.n.content), len(got), firstDiff(got, f.n.content), p.BodyFault)
+					return
+				}
+			}
+		}
+		res.Stat("transfer_faults_injected", int64(mountActor.FaultsInjected()))
 	}
 	// every file once, sequentially, the way cat does (128 KiB requests)
 	for i, f := range files {
